@@ -286,6 +286,34 @@ pub fn catalogue() -> Vec<(&'static str, Prog)> {
         "fg_under_growing_bind",
         Prog::new(vec![var(0), var(1), map(F1::Inc, 1), map(F1::Inc, 2), bind(0, E(1), E(3)), bind(4, FG(1), FG(1))]),
     ));
+    // the input of the FG bind is itself a bind that switches between two nodes of *equal value* but
+    // different height (max(v1,v1) chains): the FG bind's lhs-change node is raised without its closure
+    // re-running, so the nodes it created earlier must be raised with it (added after seed C03-b)
+    v.push((
+        "fg_equal_value_growing",
+        Prog::new(vec![
+            var(0),
+            var(1),
+            map2(F2::Max, 1, 1),
+            map2(F2::Max, 2, 1),
+            map2(F2::Max, 3, 1),
+            bind(0, E(1), E(4)),
+            bind(5, FG(1), FG(1)),
+            map(F1::Inc, 6),
+        ]),
+    ));
+    v.push((
+        "ff_equal_value_growing",
+        Prog::new(vec![
+            var(0),
+            var(1),
+            map2(F2::Max, 1, 1),
+            map2(F2::Max, 2, 1),
+            bind(0, E(1), E(3)),
+            bind(4, FF(1), FG(2)),
+            map2(F2::Mix, 5, 2),
+        ]),
+    ));
     v.push((
         "fg_simple",
         Prog::new(vec![var(0), var(1), bind(0, FG(1), FG(1)), map(F1::Inc, 2)]),
@@ -415,6 +443,30 @@ pub fn family(name: &str, _tier: Tier) -> Vec<Prog> {
                 })
             })
             .collect(),
+        // the harness drops its own handles too: an observer can be the last owner of its node
+        // (added after seed C05-b)
+        "c05/drop_handles" => {
+            use Rhs::*;
+            let shapes: Vec<Vec<NodeSpec>> = vec![
+                vec![var(0), map(F1::Inc, 0), map(F1::Inc, 1)],
+                vec![var(0), map(F1::Inc, 0), map(F1::Par, 0), map2(F2::Mix, 1, 2)],
+                vec![var(0), var(1), map(F1::Inc, 1), bind(0, E(2), F(2)), map(F1::Inc, 3)],
+                vec![var(0), var(1), n(Recipe::Zip(0, 1)), n(Recipe::MapRef(2)), map(F1::Inc, 3)],
+                vec![var(0), n(Recipe::MapWithOld(0)), map(F1::Inc, 1)],
+                vec![var(0), var(1), n(Recipe::Fold(vec![0, 1, 0])), map(F1::Inc, 2)],
+            ];
+            shapes
+                .into_iter()
+                .map(|nodes| {
+                    let mut p = Prog::new(nodes);
+                    p.alpha.drop_handle = true;
+                    p.alpha.max_observers = 2;
+                    p.alpha.disallow = false;
+                    p.alpha.values = vec![0, 1];
+                    p
+                })
+                .collect()
+        }
         "c06/cutoffs" => cutoff_programs(false),
         "c06/cutoffs-full" => cutoff_programs(true),
         "c07/reads" => catalogue()
@@ -714,8 +766,14 @@ fn subscription_programs() -> Vec<Prog> {
 fn sinks_plus_one(p: Prog) -> Vec<Prog> {
     let base = sinks_only(p);
     let mut out = vec![];
+    let stateful = base.nodes.iter().any(|n| matches!(n.recipe, Recipe::DependOn(..) | Recipe::MapRef(_) | Recipe::MapWithOld(_)));
     for i in 0..base.nodes.len() as u8 {
-        if base.alpha.observable.contains(&i) || matches!(base.nodes[i as usize].recipe, Recipe::Var(_) | Recipe::Const(_)) {
+        if base.alpha.observable.contains(&i) || matches!(base.nodes[i as usize].recipe, Recipe::Const(_)) {
+            continue;
+        }
+        // a variable observed on its own keeps changing while its dependants are unneeded (added after
+        // seed C01-b); only worth the extra programs where some node keeps state between rounds
+        if matches!(base.nodes[i as usize].recipe, Recipe::Var(_)) && !stateful {
             continue;
         }
         let mut q = base.clone();
